@@ -791,6 +791,18 @@ func (x *Exec) checkCallsClauses(st *State, key string, fc *FuncContract, c *ssa
 					vars["arg"+fmt.Sprint(i)] = v
 				}
 			}
+			// variadic call f(a, b, xs...) written with explicit arguments: vararg0.. are the values before boxing,
+			// nvarargs their number
+			if c.Signature().Variadic() && len(c.Args) > 0 {
+				if vals, ok := varargValues(c.Args[len(c.Args)-1]); ok {
+					vars["nvarargs"] = intVal(intLit(int64(len(vals))))
+					for i, sv := range vals {
+						if v := x.val(st, sv); isSMTVal(v) {
+							vars["vararg"+fmt.Sprint(i)] = retype(v, sv.Type())
+						}
+					}
+				}
+			}
 		}
 		bctx := x.specCtx(st, nil)
 		bctx.inBody = true
